@@ -161,7 +161,7 @@ func (p *parser) parseBinaryExpr(left Node) Node {
 	if binaryExp.Right == nil {
 		return nil // previous error
 	}
-	if expType == EMPTY_ARRAY {
+	if expType == EMPTY_ARRAY && binaryExp.Op == OP_PLUS {
 		binaryExp.T = binaryExp.Right.Type() // array concatenation e.g. [] + [1 2]
 	}
 	if binaryExp.T != nil {
